@@ -551,6 +551,18 @@ func knownMinLen(v ssa.Value, depth int) (int64, bool) {
 	case *ssa.MakeSlice:
 		return minMakeLen(x.Len)
 	case *ssa.Slice:
+		// x[i : i+K]: exactly K elements whenever the slice expression itself is in bounds (which the
+		// bounds rule decides)
+		if x.Low != nil && x.High != nil {
+			if bo, ok := x.High.(*ssa.BinOp); ok && bo.Op == token.ADD {
+				if k, isC := constInt(bo.Y); isC && bo.X == x.Low && k >= 0 {
+					return k, true
+				}
+				if k, isC := constInt(bo.X); isC && bo.Y == x.Low && k >= 0 {
+					return k, true
+				}
+			}
+		}
 		lo := int64(0)
 		if x.Low != nil {
 			k, ok := constInt(x.Low)
